@@ -5,6 +5,7 @@ import (
 	"errors"
 	"fmt"
 	"io"
+	"reflect"
 	"strings"
 	"time"
 	"unsafe"
@@ -169,7 +170,11 @@ func c13multi(c *Ctx) {
 	if !enumerate {
 		vectors = 60
 	}
-	c.Describe("member=multi sinks=%d payload=%d vectors=%d exhaustive=%v", k, plen, vectors, enumerate)
+	// how the sinks are handed over: flat, or with a consecutive group of them
+	// already combined into a multi-WriteSyncer of its own (first, last or
+	// middle position); the observable contract is the same
+	shape := g.Draw(4)
+	c.Describe("member=multi sinks=%d payload=%d vectors=%d exhaustive=%v shape=%d", k, plen, vectors, enumerate, shape)
 	c.Nontrivial = true
 	for v := 0; v < vectors; v++ {
 		code := v
@@ -213,7 +218,29 @@ func c13multi(c *Ctx) {
 			}
 			sinks[i], ws[i] = s, s
 		}
-		m := zapcore.NewMultiWriteSyncer(ws...)
+		args := ws
+		lo, hi := -1, -1
+		switch {
+		case shape == 1:
+			lo, hi = 0, 2
+		case shape == 2:
+			lo, hi = k-2, k
+		case shape == 3 && k >= 3:
+			lo, hi = 1, 3
+		}
+		if lo >= 0 {
+			args = append([]zapcore.WriteSyncer(nil), ws[:lo]...)
+			args = append(args, zapcore.NewMultiWriteSyncer(ws[lo:hi]...))
+			args = append(args, ws[hi:]...)
+		}
+		given := append([]zapcore.WriteSyncer(nil), args...)
+		m := zapcore.NewMultiWriteSyncer(args...)
+		for i := range given {
+			if !c13same(args[i], given[i]) {
+				c.Fail("C13: NewMultiWriteSyncer modified the slice of sinks it was given", "shape %d: element %d was replaced", shape, i)
+				return
+			}
+		}
 		p := append([]byte(nil), payload...)
 		n, err := m.Write(p)
 		for i, s := range sinks {
@@ -259,6 +286,19 @@ func c13multi(c *Ctx) {
 			return
 		}
 	}
+}
+
+// c13same: identity of two WriteSyncers, also for the (uncomparable) slice
+// type behind a multi-WriteSyncer.
+func c13same(a, b zapcore.WriteSyncer) bool {
+	va, vb := reflect.ValueOf(a), reflect.ValueOf(b)
+	if va.Type() != vb.Type() {
+		return false
+	}
+	if va.Kind() == reflect.Slice {
+		return va.Len() == vb.Len() && va.Pointer() == vb.Pointer()
+	}
+	return va.Comparable() && a == b
 }
 
 func c13counts(sinks []*zsim.SimSink) []int {
